@@ -641,6 +641,79 @@ theorem merge_refuses (first : Input) (rest : List Input) (hwf : ∀ x ∈ first
 /-- a merge of nothing is refused as well -/
 theorem merge_refuses_empty : mergeCompat [] = .error .value := rfl
 
+/-! ## a table with a reported bin size IS the binned genome -/
+
+theorem tiling_uniformFrom (c L b : Nat) : ∀ (m k0 : Nat),
+    UniformFrom b L k0 ((List.range' k0 m).map fun k => (⟨c, k * b, min ((k + 1) * b) L⟩ : Bin)) := by
+  intro m
+  induction m with
+  | zero => intro k0; simp [UniformFrom]
+  | succ m ih =>
+    intro k0
+    simp only [List.range'_succ, List.map_cons, UniformFrom, true_and]
+    exact ih (k0 + 1)
+
+theorem tiling_tilesFrom (c L b : Nat) (hb : 1 ≤ b) : ∀ (m k0 : Nat), (∀ k, k < k0 + m → k * b < L) →
+    TilesFrom (k0 * b) ((List.range' k0 m).map fun k => (⟨c, k * b, min ((k + 1) * b) L⟩ : Bin)) := by
+  intro m
+  induction m with
+  | zero => intro k0 _; simp [TilesFrom]
+  | succ m ih =>
+    intro k0 h
+    simp only [List.range'_succ, List.map_cons, TilesFrom, true_and]
+    have h0 := h k0 (by omega)
+    have hlt : k0 * b < (k0 + 1) * b := by rw [Nat.add_mul]; omega
+    refine ⟨by omega, ?_⟩
+    cases m with
+    | zero => simp [TilesFrom]
+    | succ m' =>
+      have h1 := h (k0 + 1) (by omega)
+      have : min ((k0 + 1) * b) L = (k0 + 1) * b := by omega
+      rw [this]
+      exact ih (k0 + 1) (fun k hk => h k (by omega))
+
+theorem tilingSpec_valid (c L b : Nat) (hb : 1 ≤ b) (hL : 1 ≤ L) : ValidChrom (tilingSpec c L b) := by
+  refine ⟨C20.tilingSpec_ne_nil c L b hb hL, ?_⟩
+  have := tiling_tilesFrom c L b hb (ceilDiv L b) 0 (by
+    intro k hk
+    have h1 := C20.ceilDiv_pred_lt hb hL
+    have h2 : k * b ≤ (ceilDiv L b - 1) * b := Nat.mul_le_mul_right _ (by omega)
+    omega)
+  simpa [tilingSpec, List.range_eq_range'] using this
+
+theorem tilingSpec_uniform (c L b : Nat) (hb : 1 ≤ b) (hL : 1 ≤ L) : UniformChrom b (tilingSpec c L b) := by
+  unfold UniformChrom
+  rw [C20.tilingSpec_last_stop c L b hb hL]
+  have := tiling_uniformFrom c L b (ceilDiv L b) 0
+  simpa [tilingSpec, List.range_eq_range'] using this
+
+/-- **fixed_group_is_tiling**: in a well-formed input that reports bin size `b`, the rows of every
+chromosome are exactly `binnify`'s tiling of that chromosome's length with width `b`. -/
+theorem fixed_group_is_tiling {x : Input} (hx : WF x) {b : Nat} (hb : x.binsize = some b)
+    (c : Nat) (hc : c ∈ chromOrder x.bins) :
+    groupOf x.bins c = tilingSpec c (lastStop (groupOf x.bins c)) b := by
+  have hm := compat_group_mem hc
+  have hv := wf_valid hx _ hm
+  have hu : UniformChrom b (groupOf x.bins c) :=
+    C20.getBinsize_truthful _ b (wf_valid hx) (by rw [← hb, hx.2.2.2.1]; rfl) _ hm
+  -- the first bin is [0, min b len) and non-empty: b ≥ 1 and len ≥ 1
+  obtain ⟨hne, ht⟩ := hv
+  have hpos : 1 ≤ b ∧ 1 ≤ lastStop (groupOf x.bins c) := by
+    cases hg : groupOf x.bins c with
+    | nil => exact absurd hg hne
+    | cons y r =>
+      rw [hg] at hu ht
+      obtain ⟨h1, h2, _⟩ := hu
+      obtain ⟨_, h4, _⟩ := ht
+      constructor
+      · rcases Nat.eq_zero_or_pos b with h0 | h0
+        · subst h0; simp at h1 h2; omega
+        · exact h0
+      · omega
+  have hl := C20.tilingSpec_last_stop c (lastStop (groupOf x.bins c)) b hpos.1 hpos.2
+  exact uniformChrom_unique b c _ _ ⟨hne, ht⟩ (tilingSpec_valid c _ b hpos.1 hpos.2) hu
+    (tilingSpec_uniform c _ b hpos.1 hpos.2) hl.symm (compat_group_chrom x.bins c) (C20.tilingSpec_chrom c _ b)
+
 /-! ## the unrepaired `get_binsize` would make the shortcut unsound -/
 
 /-- an input as `create` wrote it BEFORE the repair of `get_binsize` (known finding D1): the stored
@@ -713,5 +786,8 @@ example : mergeCompat [exFixed, exFixed, exFixedLast] = .error .value :=
 example : chromSortedB exFixed.bins = true ∧ (∀ g ∈ groups exFixed.bins, ValidChrom g) ∧
     (∀ g ∈ groups exFixed.bins, UniformChrom 10 g) ∧ getChromsizes exFixed.bins = [(0, 25), (1, 12)] := by
   decide
+
+/-- `fixed_group_is_tiling` on a concrete input: chromosome 1 of `exFixed` (length 12, width 10) -/
+example : groupOf exFixed.bins 1 = tilingSpec 1 12 10 := by decide
 
 end Cooler.C07
